@@ -557,5 +557,12 @@ def run(ctx):
     common.check_pair_routine(ctx, 'C17.L1', prog.mod('bonds'))
     ctx.assume('distance-based bond perception reproduces the templates for residues with regular '
                'covalent geometry (C11 decides the perception rule, not the geometry)')
-    ctx.assume('geometry (H-H separation >= 0.5 A, angles) and orientation independence are not '
-               'decided here (C04/C20)')
+    # the same positions in every orientation: the one helper that turns a
+    # direction about an axis must return its result in the frame it got it in -
+    # whatever it applies to the vector before the rotation is undone after it
+    from checks import c20
+    vmod = prog.mod('vector_algebra')
+    hfn, _axis, hangle, hvec = c20.helper_roles(vmod)
+    c20.check_undo_paths(ctx, 'C17.L4', vmod, hfn, hvec, hangle)
+    ctx.assume('geometry (H-H separation >= 0.5 A, angles) and the rest of orientation independence '
+               'are not decided here (C04/C20)')
